@@ -45,6 +45,24 @@ def translate():
     args = [a.arg for a in be.args.args]
     if args != ['t', 'indices', 'sort'] or [t2.src(d) for d in be.args.defaults] != ['True']:
         raise TranslateError('build_entities signature: ' + repr(args))
+    got = [t2.src(x) for x in _body(be)]
+    want = ['if indices is None:\n    return (None, None)',
+            'indexing = np.hstack(tuple([t[ix] for ix in indices]))',
+            'sorted_indexing = Mesh._sort_entities(indexing)',
+            'sorted_indexing, ixa, ixb = np.unique(sorted_indexing, axis=1, return_index=True, return_inverse=True)',
+            'mapping = ixb.reshape((len(indices), t.shape[1]))',
+            'if sort:\n    return (np.ascontiguousarray(sorted_indexing), mapping)',
+            'return (np.ascontiguousarray(indexing[:, ixa]), mapping)']
+    if got != want:
+        raise TranslateError('Mesh.build_entities body: ' + repr([g for g, w in zip(got + [''] * 9, want + [''] * 9) if g != w][:2]))
+    se = t2.find_def(tree, '_sort_entities', 'Mesh')
+    got = [t2.src(x) for x in _body(se)]
+    want = ['out = np.sort(indexing, axis=0)', 'repeated = out[1:] == out[:-1]', 'cols = np.nonzero(repeated.any(axis=0))[0]',
+            'if len(cols) > 0:\n    rows = np.arange(out.shape[0])[:, None]\n    last = repeated[:, cols].argmax(axis=0) + 1\n'
+            '    out[:, cols] = out[np.where(rows <= last, np.maximum(rows - 1, 0), rows), cols]',
+            'return out']
+    if got != want:
+        raise TranslateError('Mesh._sort_entities body: ' + repr([g for g, w in zip(got + [''] * 9, want + [''] * 9) if g != w][:2]))
     f = t2.find_def(tree, '_init_facets', 'Mesh')
     _expect(t2.only(_body(f), '_init_facets body'),
             'self._facets, self._t2f = self.build_entities(self.t, self.elem.refdom.facets)', 'Mesh._init_facets')
@@ -262,6 +280,55 @@ def _slot_tables(kind):
     return [list(x) for x in r.facets], [list(x) for x in (r.edges or [])]
 
 
+_GEO = {}
+
+
+def geometric_slots(kind):
+    """(facets, edges) of the reference cell as sets of local vertex numbers, derived from the COORDINATES of the reference
+    vertices only (faces of the convex hull; two vertices span an edge iff they lie on >= 2 common faces in 3-D, on a common
+    face in 2-D).  Independent of RefXxx.facets / RefXxx.edges."""
+    if kind in _GEO:
+        return _GEO[kind]
+    import skfem.refdom as R
+    P = np.asarray(getattr(R, REFDOM[kind]).p, dtype=float)
+    d, n = P.shape
+    if d == 1:
+        faces = [frozenset([int(np.argmin(P[0]))]), frozenset([int(np.argmax(P[0]))])]
+        edges = set()
+    else:
+        from scipy.spatial import ConvexHull
+        hull = ConvexHull(P.T)
+        planes = {}
+        for eq in hull.equations:
+            key = tuple(np.round(eq / np.linalg.norm(eq[:-1]), 9))
+            on = frozenset(i for i in range(n) if abs(float(eq[:-1] @ P[:, i] + eq[-1])) < 1e-9)
+            planes[key] = planes.get(key, frozenset()) | on
+        faces = sorted(set(planes.values()), key=sorted)
+        edges = set()
+        if d == 3:
+            for i in range(n):
+                for j in range(i + 1, n):
+                    if sum(1 for f in faces if i in f and j in f) >= 2:
+                        edges.add(frozenset((i, j)))
+    _GEO[kind] = (set(faces), edges)
+    return _GEO[kind]
+
+
+def oracle_refdom(kind):
+    """the slot tables against the geometry of the reference cell; returns list of (table, message)"""
+    bad = []
+    fslots, eslots = _slot_tables(kind)
+    faces, edges = geometric_slots(kind)
+    got_f = [frozenset(s) for s in fslots]
+    if set(got_f) != faces or len(set(got_f)) != len(got_f):
+        bad.append(('facets', f'refdom facet slots {fslots} are not (once each) the faces {sorted(map(sorted, faces))} of the reference cell'))
+    if kind in ('tet', 'hex', 'wedge'):
+        got_e = [frozenset(s) for s in eslots]
+        if set(got_e) != edges or len(set(got_e)) != len(got_e):
+            bad.append(('edges', f'refdom edge slots {eslots} are not (once each) the edges {sorted(map(sorted, edges))} of the reference cell'))
+    return bad
+
+
 def oracle_mesh(kind, m, manifold=True):
     """direct check of the property statement on one Mesh object; returns list of (table, message)"""
     bad = []
@@ -270,15 +337,24 @@ def oracle_mesh(kind, m, manifold=True):
     fslots, eslots = _slot_tables(kind)
     three_d = kind in ('tet', 'hex', 'wedge')
 
+    distinct_cells = all(len(set(t[:, e].tolist())) == t.shape[0] for e in range(nt))
+    if not distinct_cells:
+        return bad        # a repeated vertex inside a cell: not a mesh the property speaks about (correspondence still covers it)
+    # an entity IS its vertex set (for cells with distinct vertices; padded slots such as the wedge's [0, 1, 2, 0] collapse)
+    keyf = (lambda a: tuple(sorted(set(a)))) if distinct_cells else (lambda a: tuple(sorted(a)))
+
     def entity_check(name, ent, t2x, slots):
-        cols = [tuple(sorted(ent[:, j].tolist())) for j in range(ent.shape[1])]
+        cols = [keyf(ent[:, j].tolist()) for j in range(ent.shape[1])]
         if len(set(cols)) != len(cols):
-            bad.append((name, 'an entity appears twice'))
+            dup = sorted(c for c in set(cols) if cols.count(c) > 1)[0]
+            bad.append((name, f'the entity with vertices {list(dup)} appears {cols.count(dup)} times '
+                              f'(columns {[ent[:, j].tolist() for j, c in enumerate(cols) if c == dup]})'))
+            return {}, {}
         ids = {c: j for j, c in enumerate(cols)}
         want = {}
         for s, ix in enumerate(slots):
             for e in range(nt):
-                key = tuple(sorted(t[ix, e].tolist()))
+                key = keyf(t[ix, e].tolist())
                 want.setdefault(key, []).append(e)
                 if t2x.shape != (len(slots), nt) or not (0 <= t2x[s, e] < len(cols)) or cols[t2x[s, e]] != key:
                     bad.append(('t2' + name[0], f'slot {s} of cell {e} does not name the entity spanned by its vertices'))
@@ -288,9 +364,10 @@ def oracle_mesh(kind, m, manifold=True):
         if sorted(set(t2x.flatten().tolist())) != list(range(len(cols))):
             bad.append(('t2' + name[0], 'not onto the entity range'))
         if name == 'facets' and kind != 'hex' or name == 'edges':
-            if any(list(c) != ent[:, j].tolist() for j, c in enumerate(cols)):
+            if any(ent[:, j].tolist() != sorted(ent[:, j].tolist()) for j in range(ent.shape[1])):
                 bad.append((name, 'a column is not sorted'))
-        if cols != sorted(cols):
+        raw = [tuple(sorted(ent[:, j].tolist())) for j in range(ent.shape[1])]
+        if raw != sorted(raw):
             bad.append((name, 'columns not in lexicographic order'))
         return ids, want
 
@@ -301,7 +378,6 @@ def oracle_mesh(kind, m, manifold=True):
     f2t = np.asarray(m.f2t)
     nf = fac.shape[1]
     cells_of = {fid[k]: v for k, v in fcells.items()}
-    distinct_cells = all(len(set(t[:, e].tolist())) == t.shape[0] for e in range(nt))
     if f2t.shape != (2, nf):
         bad.append(('f2t', f'shape {f2t.shape}'))
         return bad
@@ -344,6 +420,19 @@ def oracle_mesh(kind, m, manifold=True):
         return bad
     edg = np.asarray(m.edges)
     ne = edg.shape[1]
+    if distinct_cells:
+        ecols = {tuple(sorted(edg[:, g].tolist())): g for g in range(ne)}
+        t2e_ = np.asarray(m.t2e)
+        for e in range(nt):
+            for pair in geometric_slots(kind)[1]:
+                i, j = sorted(pair)
+                key = tuple(sorted((int(t[i, e]), int(t[j, e]))))
+                if key not in ecols or ecols[key] not in t2e_[:, e].tolist():
+                    bad.append(('edges', f'the edge of cell {e} between its local vertices {i} and {j} (vertices {key}) is '
+                                + ('not in mesh.edges' if key not in ecols else 'not named by t2e')))
+                    return bad
+        if len(ecols) != len({tuple(sorted((int(t[min(pr), e]), int(t[max(pr), e])))) for e in range(nt) for pr in geometric_slots(kind)[1]}):
+            bad.append(('edges', 'mesh.edges has columns that are not edges of any cell'))
     p2e = m.p2e
     if p2e.shape != (ne, nv) or {(int(i), int(j)) for i, j in zip(*p2e.nonzero())} != {(g, int(v)) for g in range(ne) for v in edg[:, g]}:
         bad.append(('p2e', 'nonzero pattern differs from edge membership'))
@@ -395,7 +484,46 @@ def _big_mesh(rng, kind, quick):
     return M.build(kind, p, t), info
 
 
+def euler_defect(kind, m):
+    """V - E + F - C (3-D), V - F + C (2-D), V - C (1-D) minus 1: zero for a mesh of a ball"""
+    nv, nf, nt = m.p.shape[1], m.facets.shape[1], m.t.shape[1]
+    if kind == 'line':
+        return nv - nt - 1
+    if kind in ('tri', 'quad'):
+        return nv - nf + nt - 1
+    return nv - m.edges.shape[1] + nf - nt - 1
+
+
 def _oracle(ctx, rng):
+    # two stacked cells whose shared facet is listed from different starting vertices / in different local order
+    import skfem
+    pw = np.array([[0, 1, 0, 0, 1, 0, 0, 1, 0], [0, 0, 1, 0, 0, 1, 0, 0, 1], [0, 0, 0, 1, 1, 1, 2, 2, 2.]])
+    for top in ([3, 4, 5, 6, 7, 8], [4, 5, 3, 7, 8, 6], [5, 3, 4, 8, 6, 7], [6, 7, 8, 3, 4, 5]):
+        m = M.build('wedge', pw, np.array([[0, 1, 2, 3, 4, 5], top]).T)
+        ctx.count(('stacked-wedges', tuple(top)), nontrivial=True)
+        for table, msg in oracle_mesh('wedge', m, True):
+            ctx.fail(f'wedge:{table}', f'MeshWedge1 (two stacked wedges, t = {m.t.T.tolist()}): {msg}',
+                     {'kind': 'wedge', 'p': pw.tolist(), 't': m.t.tolist(), 'table': table})
+    for kind in KINDS:
+        ctx.count(('refdom', kind), nontrivial=False)
+        for table, msg in oracle_refdom(kind):
+            ctx.fail(f'{kind}:refdom-{table}', f'{REFDOM[kind]}: {msg}', {'kind': kind, 'table': table, 'message': msg})
+        # structured, uncarved meshes are balls: Euler characteristic 1 (any numbering / local orientation)
+        for _ in range(3):
+            p, t, info = M.gen_raw(rng, kind, maxcells=30, carve=False)
+            if info['style'] != 'structured':
+                continue
+            m = M.build(kind, p, t)
+            ctx.count(('euler', kind, t.tolist()), nontrivial=True)
+            found = oracle_mesh(kind, m, True)
+            for table, msg in found:
+                ctx.fail(f'{kind}:{table}', f'{type(m).__name__}: {msg}', {'kind': kind, 'p': np.asarray(m.p).tolist(),
+                                                                          't': np.asarray(m.t).tolist(), 'info': info, 'table': table})
+            chi = euler_defect(kind, m)
+            if chi != 0 and not found:
+                ctx.fail(f'{kind}:euler', f'{type(m).__name__}: a structured mesh of a box has V-E+F-C = {chi + 1}, not 1 '
+                         f'(V={m.p.shape[1]}, E={m.edges.shape[1] if kind in ("tet", "hex", "wedge") else "-"}, F={m.facets.shape[1]}, C={m.t.shape[1]})',
+                         {'kind': kind, 'p': np.asarray(m.p).tolist(), 't': np.asarray(m.t).tolist(), 'info': info, 'table': 'euler'})
     # minimal witnesses for single cells in every vertex order (cheap, catches order-dependent defects)
     for kind in KINDS:
         cls = M.mesh_class(kind)
@@ -455,7 +583,7 @@ def _equivariance(ctx, rng, kind, m):
     def fs(mm, ids=None, mp=None):
         f = np.asarray(mm.facets)
         ids = range(f.shape[1]) if ids is None else ids
-        return {tuple(sorted((int(mp[v]) if mp is not None else int(v)) for v in f[:, j])) for j in ids}
+        return {tuple(sorted({(int(mp[v]) if mp is not None else int(v)) for v in f[:, j]})) for j in ids}      # vertex sets
     ok = (fs(m, mp=perm) == fs(m2) and fs(m, m.boundary_facets(), perm) == fs(m2, m2.boundary_facets())
           and sorted(perm[m.boundary_nodes()].tolist()) == m2.boundary_nodes().tolist()
           and sorted(perm[m.interior_nodes()].tolist()) == m2.interior_nodes().tolist())
@@ -466,7 +594,7 @@ def _equivariance(ctx, rng, kind, m):
         out = {}
         f = np.asarray(mm.facets)
         for j in range(f.shape[1]):
-            key = tuple(sorted((int(mp[v]) if mp is not None else int(v)) for v in f[:, j]))
+            key = tuple(sorted({(int(mp[v]) if mp is not None else int(v)) for v in f[:, j]}))
             out[key] = frozenset((int(mapc[c]) if mapc is not None else int(c)) for c in mm.f2t[:, j] if c != -1)
         return out
     ok = ok and nb(m, inv_c, perm) == nb(m2)
@@ -480,7 +608,14 @@ def _equivariance(ctx, rng, kind, m):
 def replay(ctx, data):
     """re-run the oracle on the recorded mesh"""
     inp = data['input']
+    if 'p' not in inp:          # a reference-cell table
+        for table, msg in oracle_refdom(inp['kind']):
+            ctx.fail(f"{inp['kind']}:refdom-{table}", msg, inp)
+        ctx.log('replay', data.get('key'), '->', [f['key'] for f in ctx.failures] or 'no failure on this tree')
+        return
     m = M.build(inp['kind'], np.array(inp['p'], dtype=float), np.array(inp['t']))
+    if inp.get('table') == 'euler' and euler_defect(inp['kind'], m) != 0:
+        ctx.fail(data['key'], f'V-E+F-C = {euler_defect(inp["kind"], m) + 1}', inp)
     bad = oracle_mesh(inp['kind'], m, manifold=inp.get('info', {}).get('style') != 'abstract')
     ctx.log('replay', data.get('key'), '->', bad or 'no failure on this tree')
     for table, msg in bad:
